@@ -25,6 +25,22 @@ CLAIMED = {
              "example wrapped as 'input = w', and nesting contexts for the moved term.",
         tech="path-forking symbolic execution + z3 (equation equivalence queries, bounded)",
         ref="DESIGN.md section 4 C02"),
+    "C06": dict(
+        text="Bounded symbolic execution of can_apply_to/apply_to/find_node/find_nodes on trees with solver-variable payloads: "
+             "on every feasible path a positive can_apply_to is followed by an apply_to that returns an expression, a deep "
+             "snapshot shows can_apply_to changed nothing, a second call answers the same, and the node search equals the "
+             "in-order list filtered by can_apply_to with exact r_index values.",
+        note="Trusts z3 for branch feasibility and the proxy/stub model; problems are re-run on concrete payloads without "
+             "stubs before being reported. can_apply_to raising is recorded in the evidence, not judged.",
+        tech="path-forking symbolic execution of the Python source with z3-decided branches (bounded tree size)",
+        ref="DESIGN.md section 4 C06"),
+    "C07": dict(
+        text="Same exploration as C06, applied to node.clone_from_root(): structure audit of every result, context subtrees "
+             "off the root->target path preserved in order (payload identity by solver term), variable set unchanged, "
+             "deep snapshot of the source tree unchanged - on every feasible path of the rule code.",
+        note="As C06. 'Context' is the set of subtrees hanging off the path from the root to the rewritten node's parent.",
+        tech="path-forking symbolic execution with z3-decided branches + structural audit (bounded tree size)",
+        ref="DESIGN.md section 4 C07"),
 }
 
 PENDING = {}
